@@ -22,6 +22,10 @@ type vpC01State struct {
 	offered [][3]bool
 }
 
+// vpC01Conflict restricts the operation alphabet to one equivocating validator and majority claims
+// (longer histories of the operations that matter for conflicting votes).
+var vpC01Conflict bool
+
 func vpC01VoteSet(n, k int, typ tmproto.SignedMsgType, maxPower int64, preferInt int, malformed int) vpC01State {
 	vp.Opt("prefer_int", preferInt)
 	keys := make([]ed25519.PrivKey, n)
@@ -43,7 +47,13 @@ func vpC01VoteSet(n, k int, typ tmproto.SignedMsgType, maxPower int64, preferInt
 	}
 	var maj *BlockID
 	for step := 0; step < k; step++ {
-		op := vp.Choice("op", 3*n+2+malformed)
+		op := 0
+		if vpC01Conflict {
+			// only: validator 0 votes for A, validator 0 votes for B, a peer claims a majority
+			op = []int{0, 1, 3 * n}[vp.Choice("op", 3)]
+		} else {
+			op = vp.Choice("op", 3*n+2+malformed)
+		}
 		switch {
 		case op == 3*n:
 			// a peer claims a majority for some block
@@ -166,12 +176,20 @@ func vpC01Commit(st vpC01State) {
 	}
 }
 
-func VP_C01_VoteSet_n2_k3()      { vpC01Commit(vpC01VoteSet(2, 3, tmproto.PrecommitType, 1<<16, 0, 0)) }
-func VP_C01_VoteSet_n3_k2()      { vpC01Commit(vpC01VoteSet(3, 2, tmproto.PrecommitType, 1<<16, 0, 1)) }
-func VP_C01_VoteSet_n2_k2_pv()   { _ = vpC01VoteSet(2, 2, tmproto.PrevoteType, 1<<16, 0, 1) }
-func VP_C01_VoteSet_n3_k3()      { vpC01Commit(vpC01VoteSet(3, 3, tmproto.PrecommitType, 1<<16, 0, 0)) }
-func VP_C01_VoteSet_n3_k3_pv()   { _ = vpC01VoteSet(3, 3, tmproto.PrevoteType, 1<<16, 0, 0) }
-func VP_C01_VoteSet_n2_k4()      { vpC01Commit(vpC01VoteSet(2, 4, tmproto.PrecommitType, 1<<16, 0, 0)) }
-func VP_C01_VoteSet_n4_k3()      { vpC01Commit(vpC01VoteSet(4, 3, tmproto.PrecommitType, 1<<16, 0, 0)) }
-func VP_C01_VoteSet_n2_k2_full() { vpC01Commit(vpC01VoteSet(2, 2, tmproto.PrecommitType, MaxTotalVotingPower, 1, 0)) }
-func VP_C01_VoteSet_n3_k3_full() { vpC01Commit(vpC01VoteSet(3, 3, tmproto.PrecommitType, MaxTotalVotingPower, 1, 0)) }
+func VP_C01_VoteSet_n2_k3()    { vpC01Commit(vpC01VoteSet(2, 3, tmproto.PrecommitType, 1<<16, 0, 0)) }
+func VP_C01_VoteSet_n3_k2()    { vpC01Commit(vpC01VoteSet(3, 2, tmproto.PrecommitType, 1<<16, 0, 1)) }
+func VP_C01_VoteSet_n2_k2_pv() { _ = vpC01VoteSet(2, 2, tmproto.PrevoteType, 1<<16, 0, 1) }
+func VP_C01_VoteSet_n3_k3()    { vpC01Commit(vpC01VoteSet(3, 3, tmproto.PrecommitType, 1<<16, 0, 0)) }
+func VP_C01_VoteSet_n3_k3_pv() { _ = vpC01VoteSet(3, 3, tmproto.PrevoteType, 1<<16, 0, 0) }
+func VP_C01_VoteSet_n2_k5_conflict() {
+	vpC01Conflict = true
+	vpC01Commit(vpC01VoteSet(2, 5, tmproto.PrecommitType, 1<<16, 0, 0))
+}
+func VP_C01_VoteSet_n2_k4() { vpC01Commit(vpC01VoteSet(2, 4, tmproto.PrecommitType, 1<<16, 0, 0)) }
+func VP_C01_VoteSet_n4_k3() { vpC01Commit(vpC01VoteSet(4, 3, tmproto.PrecommitType, 1<<16, 0, 0)) }
+func VP_C01_VoteSet_n2_k2_full() {
+	vpC01Commit(vpC01VoteSet(2, 2, tmproto.PrecommitType, MaxTotalVotingPower, 1, 0))
+}
+func VP_C01_VoteSet_n3_k3_full() {
+	vpC01Commit(vpC01VoteSet(3, 3, tmproto.PrecommitType, MaxTotalVotingPower, 1, 0))
+}
